@@ -161,6 +161,12 @@ def run(out, tier):
     # the taken branch of a JUMPI really starts at the target: VMThread::fork puts the new thread there (any target inside the code)
     from . import c03
     c03.fork_obligation(out, eng, eng.explorer(), pr, oid="J3.forked_branch_starts_at_target")
+    # "both outcomes of every conditional jump are explored": a JUMPI whose *target* is rejected (any of the four bad-jump
+    # kinds) still has its fall-through outcome, so JumpI::execute must return Ok with the thread alive; only non-jump
+    # errors may end the path.  Same obligation as C17 E2 (classification of the validation error), replayed natively by
+    # error_kind(kind, jumpi) whose judge includes "the instruction behind the JUMPI was never visited".
+    from . import c17
+    c17.e2(out, eng, pr)
     out.extra["solver_queries"] = pr.n_queries
 
 
